@@ -18,7 +18,8 @@
 //! buffer; "more bytes needed" leaves the buffer untouched; largest single allocation request
 //! <= C0 + C1*len. Across evaluations: a value / an error reported for s is reported unchanged for
 //! every extension of s (so fragmenting cannot change the frames); "more bytes needed" must be
-//! satisfiable: some continuation makes the decoder leave that answer. Leniency (accepting input a
+//! satisfiable: some continuation makes the decoder leave that answer. Grammar oracle on (i)/(ii):
+//! the header line ends at the FIRST CRLF of the input (see `grammar_findings`). Leniency (accepting input a
 //! strict RESP reader would reject) is NOT flagged.
 use bytes::BytesMut;
 use redis_sim::production::verif_encode_resp_into;
@@ -683,6 +684,54 @@ fn basic_findings(acc: &mut Acc, dec: Dec, s: &[u8], e: &Eval) {
     }
 }
 
+/// Grammar oracle for the header line ("the exact number of bytes it occupies"): in RESP the header
+/// line — the whole frame for + - :, the length line for $ and * — ends at the FIRST CRLF of the
+/// input. For an input that starts with a type byte and contains a CRLF (first one at p):
+///  (1) + - : are complete: never "more bytes needed";
+///  (2) a value for + - : occupies exactly p + 2 bytes;
+///  (3) for $ and * the length field is exactly input[1..p]: if that is not a number (i64 parse of
+///      exactly those bytes fails) the answer is never "more bytes needed", and never a value when the
+///      field holds a byte that no reading accepts (anything but digits, sign, space);
+///  (4) a bulk value with numeric field n occupies exactly p + 2 (n = -1) or p + 2 + n + 2 bytes.
+fn grammar_findings(acc: &mut Acc, dec: Dec, s: &[u8], out: &Out) {
+    if s.is_empty() || !b"+-:$*".contains(&s[0]) {
+        return;
+    }
+    let Some(p) = find_crlf(s) else { return };
+    let mut bad: Option<(&'static str, String)> = None;
+    if matches!(s[0], b'+' | b'-' | b':') {
+        match out {
+            Out::Incomplete => bad = Some(("incomplete", format!("the line is terminated by the CRLF at index {p}, the frame is complete"))),
+            Out::Value(_, n) if *n != p + 2 => bad = Some(("wrong-length", format!("the frame ends with the first CRLF at index {p} and occupies {} bytes", p + 2))),
+            _ => {}
+        }
+    } else {
+        let field = &s[1..p];
+        let num = std::str::from_utf8(field).ok().and_then(|x| x.parse::<i64>().ok());
+        match (num, out) {
+            (None, Out::Incomplete) => bad = Some(("incomplete", format!("the length line ends at the first CRLF (index {p}); its field `{}` is not a length, no further byte can change that", esc(field)))),
+            (None, Out::Value(..)) if field.iter().any(|c| !(c.is_ascii_digit() || b"+- ".contains(c))) => {
+                bad = Some(("invalid-length-accepted", format!("the length line ends at the first CRLF (index {p}); its field `{}` is not a length", esc(field))))
+            }
+            (Some(n), Out::Value(_, c)) if s[0] == b'$' && n >= -1 => {
+                let want = if n == -1 { Some(p + 2) } else { (p + 4).checked_add(n as usize) };
+                if want != Some(*c) {
+                    bad = Some(("wrong-length", format!("a bulk string announced as {n} bytes after the header line of {} bytes occupies {:?} bytes", p + 2, want)));
+                }
+            }
+            _ => {}
+        }
+    }
+    if let Some((kind, why)) = bad {
+        let kind_full = format!("not-terminated-at-first-CRLF {kind}");
+        acc.add(
+            format!("{} header-line {}", dec.name(), kind_full),
+            format!("{}::parse on `{}` answers {}; {}", dec.name(), esc(s), out.show(), why),
+            input_replay(dec, s, &kind_full),
+        );
+    }
+}
+
 /// Stability under extension: `shorter` is the outcome on a proper prefix of `s`.
 fn stability_findings(acc: &mut Acc, dec: Dec, s: &[u8], plen: usize, shorter: &Out, now: &Out) {
     match shorter {
@@ -811,6 +860,7 @@ fn check_chain(acc: &mut Acc, s: &[u8]) {
         for i in 0..=s.len() {
             let e = eval(dec, &s[..i]);
             basic_findings(acc, dec, &s[..i], &e);
+            grammar_findings(acc, dec, &s[..i], &e.out);
             if let Some(p) = &prev {
                 stability_findings(acc, dec, &s[..i], i - 1, p, &e.out);
             }
@@ -937,6 +987,7 @@ fn child_sweep(args: &vh::Args) -> ! {
             let e = eval(dec, &s);
             acc.hist[dec.idx()][e.out.kidx()] += 1;
             basic_findings(&mut acc, dec, &s, &e);
+            grammar_findings(&mut acc, dec, &s, &e.out);
             if !s.is_empty() {
                 let (_, po) = cache.as_ref().unwrap();
                 stability_findings(&mut acc, dec, &s, s.len() - 1, &po[dec.idx()], &e.out);
@@ -1997,7 +2048,7 @@ fn main() {
         "evaluations": evaluations,
         "decoder_calls": total_evals,
         "distinct_nontrivial": distinct,
-        "rule": format!("(i) every byte string of length 0..={maxlen} over the 14-symbol alphabet, both decoders, each compared with its longest proper prefix; (ii) type byte x 15 length/number fields x payload/element count shorter|equal|longer x 5 CR/LF placements x 3 contexts, every prefix; nesting depth 2^k, k<=20; (iii) every stream of 1..3 frames from the frame generator, every prefix length, every 1-cut fragmentation, byte-by-byte; (iv) every tree of depth <=2 over the leaf set (+ single large/odd leaves) x 3 encoders x 2 decoders. evaluations = inputs + family cases + streams + (tree,encoder) pairs + nesting depths; a case is non-trivial when it starts with a RESP type byte (the decoders get past the type dispatch); distinct_nontrivial counts sweep inputs starting with a type byte, plus family cases / streams not already in the sweep space, plus (tree,encoder) pairs and nesting depths — each set is duplicate-free by construction (BTreeSet / de-duplicated generator)"),
+        "rule": format!("(i) every byte string of length 0..={maxlen} over the 14-symbol alphabet, both decoders, each compared with its longest proper prefix and with the grammar rule 'the header line ends at the first CRLF'; (ii) type byte x 15 length/number fields x payload/element count shorter|equal|longer x 5 CR/LF placements x 3 contexts, every prefix; nesting depth 2^k, k<=20; (iii) every stream of 1..3 frames from the frame generator, every prefix length, every 1-cut fragmentation, byte-by-byte; (iv) every tree of depth <=2 over the leaf set (+ single large/odd leaves) x 3 encoders x 2 decoders. evaluations = inputs + family cases + streams + (tree,encoder) pairs + nesting depths; a case is non-trivial when it starts with a RESP type byte (the decoders get past the type dispatch); distinct_nontrivial counts sweep inputs starting with a type byte, plus family cases / streams not already in the sweep space, plus (tree,encoder) pairs and nesting depths — each set is duplicate-free by construction (BTreeSet / de-duplicated generator)"),
         "samples": samples,
         "exhaustive": exhaustive,
         "allocation_bound": format!("largest single request <= {C0} + {C1}*len"),
